@@ -9,6 +9,22 @@ using namespace iora::core;
 using ms = std::chrono::milliseconds;
 int main(int argc, char **argv) {
   auto in = replay_io::load(argv[1]);
+  if (in.count("MODE") && in["MODE"] == "catchup") {
+    // R4: a level-0 wrap inside a multi-tick catch-up. wheel(10 ms,4,2), timer of 165 ms on level 1; 35 ms before its deadline the tick thread
+    // has been stalled for 10 ticks (simulated: _lastAdvanceTime = now - 100 ms) and advance() catches up in one call.
+    using clk = std::chrono::steady_clock;
+    static TimingWheel w(ms(10), 4, 2);
+    w._accepting.store(true);
+    w._wheels[0].currentTick = 3;
+    auto t0 = clk::now(); static long long firedAt = -1;
+    w.schedule(ms(165), [t0] { firedAt = std::chrono::duration_cast<ms>(clk::now() - t0).count(); });
+    std::this_thread::sleep_for(ms(130));
+    w._lastAdvanceTime = clk::now() - ms(100);
+    w.advance();
+    printf("timer of 165 ms; advance() after a 10-tick stall at t = 130 ms: handler ran at %lld ms (-1 = still pending)\n", firedAt); fflush(stdout);
+    if (firedAt >= 0 && firedAt + 10 < 165) { printf("REPLAY-FAIL: R4: handler ran %lld ms before its deadline: cascadeDown re-inserted it relative to `now` and the remaining catch-up steps of the same advance() swept it\n", 165 - firedAt); fflush(stdout); _exit(1); }
+    printf("REPLAY-OK: not early\n"); fflush(stdout); _exit(0);
+  }
   size_t N = replay_io::u64(in["N"]), CUR0 = replay_io::u64(in["CUR0"]), CUR1 = replay_io::u64(in["CUR1"]);
   long long D[3] = { replay_io::i64(in["D0"]), replay_io::i64(in["D1"]), replay_io::i64(in["D2"]) };
   if (N > 3) N = 3;
